@@ -31,14 +31,19 @@ VALUES = [None, 0, 'text', (1, [2, 3]), {'k': 1.5}]
 ERRORS = [lambda: ValueError('bad', 3), lambda: KeyError('k'), lambda: Custom(1, 'two'), lambda: OSError(5, 'io')]
 
 
+# sys.exit with any code: None and 0 are success; every other code — an int, or a non-int whether truthy or FALSY — is a
+# failure that the interpreter reports with exit status code (int) or 1 (non-int)
+EXIT_CODES = [None, 0, 3, 'msg', '', 0.0]
+
+
 def make_target(kind, idx):
-    """kind: 0 return VALUES[idx]; 1 raise ERRORS[idx]; 2 sys.exit(None); 3 sys.exit(0); 4 sys.exit(3); 5 sys.exit('msg')"""
+    """kind: 0 return VALUES[idx]; 1 raise ERRORS[idx]; 2.. sys.exit(EXIT_CODES[kind - 2])"""
     def target():
         if kind == 0:
             return VALUES[idx % len(VALUES)]
         if kind == 1:
             raise ERRORS[idx % len(ERRORS)]()
-        raise SystemExit([None, 0, 3, 'msg'][kind - 2])
+        raise SystemExit(EXIT_CODES[kind - 2])
     return target
 
 
@@ -186,11 +191,11 @@ def accessors_agree(p, first, expect):
 
 def check_process_outcome(kind: int, idx: int, first: int) -> bool:
     """
-    pre: 0 <= kind <= 5 and 0 <= idx <= 4 and 0 <= first <= 3
+    pre: 0 <= kind <= 7 and 0 <= idx <= 4 and 0 <= first <= 3
     twin-pre: kind == 1
     post: _
     """
-    kind, idx, first = conc(kind, 0, 5), conc(idx, 0, 4), conc(first, 0, 3)
+    kind, idx, first = conc(kind, 0, 7), conc(idx, 0, 4), conc(first, 0, 3)
     msgs, code = run_child(kind, idx)
     if len(msgs) != 2:
         return False
@@ -207,7 +212,10 @@ def check_process_outcome(kind: int, idx: int, first: int) -> bool:
     elif kind in (2, 3):
         expect = ('value', None)
     else:
-        expect = ('error', SystemExit, (3,) if kind == 4 else ('msg',))
+        c = EXIT_CODES[kind - 2]
+        expect = ('error', SystemExit, (c,))
+        if code != (c if isinstance(c, int) else 1):
+            return False      # the exit status the child reports
     return collector_survived(p) and accessors_agree(p, first, expect)
 
 
